@@ -8,6 +8,7 @@ import (
 	"encoding/json"
 	"fmt"
 	"os"
+	"runtime"
 	"sync"
 	"time"
 )
@@ -243,3 +244,14 @@ func Regroup(v int) int { return v }
 // Quiesce waits until the goroutines started so far have finished or blocked (natively: a short
 // sleep, the started goroutines are trivial event listeners).
 func Quiesce() { time.Sleep(30 * time.Millisecond) }
+
+// Preemptions lets the engine's scheduler insert up to n pre-emptions before unbuffered channel
+// sends and mutex acquisitions (natively: no effect, the Go scheduler decides).
+func Preemptions(n int) {}
+
+// Yield is a voluntary scheduling point.
+func Yield() { runtime.Gosched() }
+
+// ZeroBytes returns n zero bytes; under the engine the content is never materialised (only the
+// length exists), so it must not be inspected.
+func ZeroBytes(n int) []byte { return make([]byte, n) }
